@@ -27,13 +27,13 @@ var Specs = map[string]*Spec{}
 
 // Oracle is /verif/oracle/oracle.json.
 type Oracle struct {
-	Sources        map[string]string                    `json:"sources"`
-	Syscalls       map[string]map[string]map[string]int `json:"syscalls"` // abi -> source -> name -> nr
-	Consts         map[string]uint64                    `json:"consts"`
-	ConstsPerArch  map[string]map[string]uint64         `json:"consts_per_goarch"`
-	AuditArch      map[string]uint64                    `json:"audit_arch"`
-	AuditArchXsys  map[string]uint64                    `json:"audit_arch_xsys"`
-	Traps          map[string]map[string]*int           `json:"traps"`
+	Sources       map[string]string                    `json:"sources"`
+	Syscalls      map[string]map[string]map[string]int `json:"syscalls"` // abi -> source -> name -> nr
+	Consts        map[string]uint64                    `json:"consts"`
+	ConstsPerArch map[string]map[string]uint64         `json:"consts_per_goarch"`
+	AuditArch     map[string]uint64                    `json:"audit_arch"`
+	AuditArchXsys map[string]uint64                    `json:"audit_arch_xsys"`
+	Traps         map[string]map[string]*int           `json:"traps"`
 }
 
 // Env gives the rules access to the run and to (lazily) loaded programs.
